@@ -351,9 +351,11 @@ def conforms(items, ty, v):
     return v[0] == {"binary": "bin", "double": "dbl"}.get(ttype(items, ty), ttype(items, ty))
 
 
-def project_ty(items, ty, v):
+def project_ty(items, ty, v, keep=False):
     """the value a decoder for declared type ty returns for wire value v (which has ty's wire type)"""
     k = ty[0]
+    if keep:
+        return project_ty_keep(items, ty, v)
     if k in ("list", "set"):
         xs = [project_ty(items, ty[1], x) for x in v[2]]
         if k == "set":
@@ -373,6 +375,144 @@ def project_ty(items, ty, v):
             return project_ty(items, it["ty"], v)
         return project_item(items, it, v)
     return v
+
+
+def project_ty_keep(items, ty, v):
+    k = ty[0]
+    if k in ("list", "set"):
+        xs = [project_ty_keep(items, ty[1], x) for x in v[2]]
+        if k == "set":
+            xs = dedup(xs)
+        return (k, ttype(items, ty[1]), xs)
+    if k == "map":
+        d = {}
+        for a, b in v[3]:
+            pa = project_ty_keep(items, ty[1], a)
+            d[sexp(canon(pa))] = (pa, project_ty_keep(items, ty[2], b))
+        return ("map", ttype(items, ty[1]), ttype(items, ty[2]), list(d.values()))
+    if k == "ref":
+        it = items[ty[1]]
+        if it["kind"] == "enum":
+            return v
+        if it["kind"] == "typedef":
+            return project_ty_keep(items, it["ty"], v)
+        return project_item_keep(items, it, v)
+    return v
+
+
+def project_item_keep(items, it, v):
+    """with keep_unknown_fields: unknown fields are retained, in wire order, after the known ones (C13)"""
+    known = {f["id"]: f for f in it["fields"]}
+
+    def is_known(i, x):
+        return i in known and known[i]["ty"] is not None and wire_tt(x) == ttype(items, known[i]["ty"])
+    if it["kind"] == "union":
+        hit = [(i, x) for i, x in v[1] if is_known(i, x)]
+        unk = [(i, x) for i, x in v[1] if not is_known(i, x)]
+        if len(hit) > 1:
+            raise Reject("multiple")
+        if hit:
+            # retention never changes how known fields decode: the known variant, unknown fields ignored
+            i, x = hit[0]
+            return ("struct", [(i, project_ty_keep(items, known[i]["ty"], x))])
+        if len(unk) == 1:
+            return ("struct", unk)
+        if not unk and it["fields"] and it["fields"][0]["ty"] is None and it["fields"][0]["name"] == "Ok":
+            return ("struct", [])
+        raise Reject("empty or several unknown")
+    out = []
+    for f in it["fields"]:
+        got = [x for i, x in v[1] if i == f["id"] and wire_tt(x) == ttype(items, f["ty"])]
+        if got:
+            out.append((f["id"], project_ty_keep(items, f["ty"], got[-1])))
+        elif f.get("default") is not None:
+            out.append((f["id"], lower_default(items, f["ty"], f["default"])))
+        elif f["req"] == "required":
+            raise Reject(f"required {f['name']}")
+    out += [(i, x) for i, x in v[1] if not is_known(i, x)]
+    return ("struct", out)
+
+
+def expected_keep(items, name, v):
+    try:
+        return sexp(canon(project_item_keep(items, items[name], v)))
+    except Reject:
+        return "err"
+
+
+def arg_types(doc):
+    out = set()
+    for it in doc["items"]:
+        if it["kind"] == "service":
+            for m in it["methods"]:
+                for f in m["args"]:
+                    if f["ty"][0] == "ref":
+                        out.add(f["ty"][1])
+    return out
+
+
+def inject_unknowns(items, ty, v, r, p=0.5):
+    """insert fields no reader declares into v and into every struct nested in it"""
+    k = ty[0]
+    if k in ("list", "set"):
+        return (v[0], v[1], [inject_unknowns(items, ty[1], x, r, p) for x in v[2]])
+    if k == "map":
+        return ("map", v[1], v[2], [(a, inject_unknowns(items, ty[2], b, r, p)) for a, b in v[3]])
+    if k != "ref":
+        return v
+    it = items[ty[1]]
+    if it["kind"] == "typedef":
+        return inject_unknowns(items, it["ty"], v, r, p)
+    if it["kind"] == "enum":
+        return v
+    known = {f["id"]: f for f in it["fields"]}
+    fs = [(i, inject_unknowns(items, known[i]["ty"], x, r, p) if i in known and known[i]["ty"] is not None else x) for i, x in v[1]]
+    if r.random() < p:
+        for _ in range(r.randrange(1, 3)):
+            i = r.choice([x for x in [r.randrange(40, 90), 999, 32000, -1, -200] if x not in known] or [9999])
+            fs.insert(r.randrange(len(fs) + 1), (i, unknown_value(r)))
+    return ("struct", fs)
+
+
+def contains_type(items, ty, v, names):
+    """does value v (of declared type ty) contain a struct value of one of the named types?"""
+    k = ty[0]
+    if k in ("list", "set"):
+        return any(contains_type(items, ty[1], x, names) for x in v[2])
+    if k == "map":
+        return any(contains_type(items, ty[1], a, names) or contains_type(items, ty[2], b, names) for a, b in v[3])
+    if k != "ref":
+        return False
+    it = items[ty[1]]
+    if it["kind"] == "typedef":
+        return contains_type(items, it["ty"], v, names)
+    if it["kind"] == "enum":
+        return False
+    if ty[1] in names:
+        return True
+    known = {f["id"]: f for f in it["fields"]}
+    return any(i in known and known[i]["ty"] is not None and wire_tt(x) == ttype(items, known[i]["ty"]) and contains_type(items, known[i]["ty"], x, names) for i, x in v[1])
+
+
+def union_known_plus_unknown(items, ty, v):
+    """D31: somewhere in v a union value carries a known variant together with an unknown field"""
+    k = ty[0]
+    if k in ("list", "set"):
+        return any(union_known_plus_unknown(items, ty[1], x) for x in v[2])
+    if k == "map":
+        return any(union_known_plus_unknown(items, ty[2], b) for _, b in v[3])
+    if k != "ref":
+        return False
+    it = items[ty[1]]
+    if it["kind"] == "typedef":
+        return union_known_plus_unknown(items, it["ty"], v)
+    if it["kind"] == "enum":
+        return False
+    known = {f["id"]: f for f in it["fields"]}
+    kn = [(i, x) for i, x in v[1] if i in known and known[i]["ty"] is not None and wire_tt(x) == ttype(items, known[i]["ty"])]
+    if it["kind"] == "union" and kn and len(kn) < len(v[1]):
+        return True
+    return any(union_known_plus_unknown(items, known[i]["ty"], x) for i, x in kn)
 
 
 def wire_tt(v):
@@ -581,12 +721,55 @@ def unknown_value(r, depth=2):
     return ("map", wire_tt(a), wire_tt(b), [(a, b)] * r.randrange(0, 2))
 
 
+def retype_elems(v):
+    """the same container with another element type on the wire (writer declared list<i64>, reader list<i32>)"""
+    k = v[0]
+    swap = {"i32": ("i64", lambda x: ("i64", x[1])), "i64": ("i32", lambda x: ("i32", x[1] % 1000)), "i8": ("i16", lambda x: ("i16", x[1])),
+            "i16": ("i32", lambda x: ("i32", x[1])), "binary": ("i32", lambda x: ("i32", len(x[1]))), "bool": ("i8", lambda x: ("i8", int(x[1])))}
+    if k in ("list", "set") and v[1] in swap and v[2]:
+        t, f = swap[v[1]]
+        return (k, t, [f(x) for x in v[2]])
+    if k == "map" and v[2] in swap and v[3]:
+        t, f = swap[v[2]]
+        return ("map", v[1], t, [(a, f(b)) for a, b in v[3]])
+    return None
+
+
+def hazards(items, it, w):
+    """known defects a writer-side value can run into (see known_findings.json): D29 a union variant whose wire
+    type differs from the declared type is decoded anyway; D26 container element types are not checked"""
+    hz = set()
+    known = {f["id"]: f for f in it["fields"]}
+    for i, x in w[1]:
+        f = known.get(i)
+        if f is None or f["ty"] is None:
+            continue
+        if wire_tt(x) != ttype(items, f["ty"]):
+            if it["kind"] == "union":
+                hz.add("D29")
+        elif x[0] in ("list", "set", "map"):
+            ty = f["ty"]
+            while ty[0] == "ref" and items[ty[1]]["kind"] == "typedef":
+                ty = items[ty[1]]["ty"]
+            if x[0] in ("list", "set") and x[1] != ttype(items, ty[1]):
+                hz.add("D26")
+            if x[0] == "map" and (x[1] != ttype(items, ty[1]) or x[2] != ttype(items, ty[2])) and x[3]:
+                hz.add("D26")
+    return hz
+
+
 def evolve(items, it, v, r):
     """rewrite a conforming struct value as a writer with a different schema would have sent it"""
     fs = list(v[1])
     declared = {f["id"] for f in it["fields"]}
     for _ in range(r.randrange(1, 4)):
-        c = r.randrange(5)
+        c = r.randrange(6)
+        if c == 5 and fs:     # same field, same container kind, another element type
+            j = r.randrange(len(fs))
+            nv = retype_elems(fs[j][1])
+            if nv is not None:
+                fs[j] = (fs[j][0], nv)
+            continue
         if c == 0:      # unknown field inserted anywhere
             i = r.choice([x for x in [r.randrange(1, 60), 999, 32000, -1] if x not in declared] or [9999])
             fs.insert(r.randrange(len(fs) + 1), (i, unknown_value(r)))
